@@ -1,6 +1,7 @@
 (* C13  Lemmas about the string-level model of serialising / extracting dependencies. *)
 From Coq Require Import ZArith Lia.
-From HT Require Import Model.Str Model.Serialize Spec.SerializeSpec Gen.Tables.
+(* No dependency on Gen.Tables: nothing here is recompiled when the tables are regenerated. *)
+From HT Require Import Model.Str Model.SerializeFns Spec.SerializeSpec.
 
 (* lia on N with division / modulo by constants *)
 Ltac Zify.zify_post_hook ::= Z.to_euclidean_division_equations.
@@ -172,11 +173,12 @@ Proof.
   unfold neutralise_with, replace_all. apply fixed_no_lt_slash. lia.
 Qed.
 
-(* the witness of finding F3: the close tag in upper case *)
+(* the witness of finding F3 (fixed by dfbc841; kept so that a regression of the literals is
+   reported as a refutation with a concrete string): the close tag in upper case *)
 Definition close_tag_upper : str := [60; 47; 83; 67; 82; 73; 80; 84; 62].
-Lemma close_tag_witness :
-  has_close_tag (neutralise close_tag_upper) = true ->
-  exists s : str, has_close_tag (neutralise s) = true.
+Lemma close_tag_witness f t :
+  has_close_tag (neutralise_with f t close_tag_upper) = true ->
+  exists s : str, has_close_tag (neutralise_with f t s) = true.
 Proof. intros H. exists close_tag_upper. exact H. Qed.
 
 (* ------------------------------------------------------------------------------------ *)
@@ -432,11 +434,26 @@ Proof.
   - intros H. apply in_app_or in H as [H|H]; exact (u_escape_no60 _ H).
 Qed.
 
+(* an encoded character starts with a backslash or is the character itself *)
+Lemma enc_head d : (exists tl, json_enc_char d = 92 :: tl) \/ json_enc_char d = [d].
+Proof.
+  unfold json_enc_char.
+  destruct (d =? 34); [left; eexists; reflexivity|].
+  destruct (d =? 92); [left; eexists; reflexivity|].
+  destruct (d =? 10); [left; eexists; reflexivity|].
+  destruct (d =? 13); [left; eexists; reflexivity|].
+  destruct (d =? 9); [left; eexists; reflexivity|].
+  destruct (d =? 8); [left; eexists; reflexivity|].
+  destruct (d =? 12); [left; eexists; reflexivity|].
+  destruct ((32 <=? d) && (d <=? 126)); [right; reflexivity|].
+  destruct (d <? 65536); left; eexists; cbn [u_escape app]; reflexivity.
+Qed.
+
 Lemma enc_hd47 d rest y2 : json_enc_char d ++ rest = 47 :: y2 -> d = 47.
 Proof.
-  unfold json_enc_char. split_ifs; cbn [app u_escape]; intros H; injection H as H _;
-    try discriminate H.
-  exact H.
+  destruct (enc_head d) as [[tl H]|H]; rewrite H; cbn [app]; intros E; injection E as E _.
+  - discriminate E.
+  - exact E.
 Qed.
 
 (* --- the decoder, one step at a time --- *)
